@@ -38,6 +38,35 @@ def expand(segs):
     return out
 
 
+FILL = '@FILL@'
+
+
+def case_eol(case):
+    return (case.get('align') or {}).get('eol', '\n')
+
+
+def expand_case(case):
+    """expand() plus alignment: a body segment NTE*ADD*@FILL@ is lengthened so that the terminator of a segment after it falls on
+    (or one beside) a read-buffer edge of the raw reader, offsets 106 + 8192 k"""
+    esegs = expand(case['segs'])
+    f = next((i for i, (sid, e) in enumerate(esegs) if sid == 'NTE' and FILL in e), None)
+    if f is None:
+        return esegs
+    al = case.get('align') or {}
+    esegs[f][1][esegs[f][1].index(FILL)] = ''
+    t = min(max(f + 1, al.get('target', f + 1)), len(esegs) - 1)
+    if t <= f:
+        esegs[f][1][-1] = 'X'
+        return esegs
+    off = len(to_text(esegs[:t + 1], case_eol(case))) - 1 - len(case_eol(case))        # offset of the terminator of segment t while the filler is empty
+    k = max(1, al.get('k', 1))
+    want = 106 + 8192 * k + al.get('d', 0)
+    while want - off < 1:
+        want += 8192
+    esegs[f][1][-1] = 'F' * (want - off)
+    return esegs
+
+
 def to_text(esegs, eol='\n'):
     return ''.join(sid + '*' + '*'.join('' if x is None else x for x in e) + '~' + eol if e else sid + '~' + eol for sid, e in esegs)
 
@@ -161,9 +190,9 @@ def check_case(case):
     if case.get('validated'):
         return check_validated(case)
     out = core.Outcome()
-    esegs = expand(case['segs'])
+    esegs = expand_case(case)
     lx = bool(case.get('lx'))
-    text = to_text(esegs)
+    text = to_text(esegs, case_eol(case))
     nested = envmodel.well_nested(esegs)
     if not nested and envmodel.well_nested(esegs, strict_body=False):
         # headers/trailers nest properly but a body segment sits outside any set: how such a segment counts is
@@ -235,6 +264,11 @@ def strategies(tier):
         lxn = 0
         while len(segs) < n:
             k = 'HL' if hl_heavy and draw(st.integers(0, 5)) > 0 else draw(st.sampled_from(['HL', 'HL', 'REF', 'CLM', 'LX', 'NM1']))
+            if 'aligned' not in pert and draw(st.integers(0, 49)) == 0:
+                # a long body segment: expand_case() puts the terminator of one of the next segments on a read-buffer edge
+                pert.add('aligned')
+                segs.append(['NTE', 'ADD', FILL])
+                continue
             if k == 'HL':
                 hl += 1
                 h01 = str(hl)
@@ -381,7 +415,14 @@ def strategies(tier):
             if cut < len(segs):
                 segs = segs[:cut]
                 pert.add('truncated')
-        return {'segs': segs, 'lx': lx, 'meta': {'pert': sorted(pert), 'mode': 'nested'}}
+        case = {'segs': segs, 'lx': lx, 'meta': {'pert': sorted(pert), 'mode': 'nested'}}
+        f = next((i for i, x in enumerate(segs) if FILL in x), None)
+        if f is not None:
+            case['align'] = {'target': f + draw(st.integers(1, 4)), 'k': draw(st.sampled_from([1, 1, 2])), 'd': draw(st.sampled_from([-1, 0, 0, 0, 1])),
+                             'eol': draw(st.sampled_from(['', '', '\n', '\r\n']))}
+        elif 'aligned' in pert:
+            case['meta']['pert'] = sorted(pert - {'aligned'})      # cut away by the truncation
+        return case
 
     @st.composite
     def arbitrary(draw):
@@ -441,7 +482,10 @@ def strategies(tier):
                     segs.insert(draw(st.integers(1, len(segs))), s)
                 pert.add('arr:' + op)
         adv = draw(st.booleans())
-        return {'segs': segs, 'lx': base['lx'], 'adversarial': adv, 'meta': {'pert': sorted(pert), 'mode': 'arbitrary'}}
+        case = {'segs': segs, 'lx': base['lx'], 'adversarial': adv, 'meta': {'pert': sorted(pert), 'mode': 'arbitrary'}}
+        if 'align' in base and mode != 'random':
+            case['align'] = base['align']
+        return case
 
     return nested(), arbitrary()
 
@@ -449,9 +493,9 @@ def strategies(tier):
 def adversarial(case):
     """Second pass: give every trailer the id and count the reader itself expects at that point (crafting only)."""
     import pyx12.x12file
-    esegs = expand(case['segs'])
+    esegs = expand_case(case)
     try:
-        rd = pyx12.x12file.X12Reader(io.StringIO(to_text(esegs)))
+        rd = pyx12.x12file.X12Reader(io.StringIO(to_text(esegs, case_eol(case))))
         rd.check_837_lx = bool(case.get('lx'))
         it = iter(rd)
         new = []
